@@ -304,11 +304,15 @@ class An:
             rets = pa.return_terms()
             if len(rets) == 1:
                 t = rets[0][1]
-                # promoted bodies return &_1 ; fold to the value behind it
-                if t[0] == 'addr' and t[1][0] == 'local':
-                    inner = pa.load(('local', t[1][1]), t[2], pa.term_point(pa.cfg.returns[0]))
-                    return ('addr', ('promoted', op['promoted'], inner), (), False)
-                return t
+                # promoted bodies return &_1 ; fold to the value behind it (recursively for && constants)
+                end = pa.term_point(pa.cfg.returns[0])
+
+                def mat(t, depth=0):
+                    if t[0] == 'addr' and t[1][0] == 'local' and depth < 4:
+                        inner = pa.load(('local', t[1][1]), t[2], end)
+                        return ('addr', ('promoted', op['promoted'], mat(inner, depth + 1)), (), False)
+                    return t
+                return mat(t)
             return ('unknown', 'promoted')
         if 'bytes' in op:
             return ('const', ty, ('bytes', op['bytes']))
@@ -363,6 +367,8 @@ class An:
             return ('load', base[1], path)
         if base[0] == 'promoted':
             return project(base[2], path)
+        if base[0] == 'cell':
+            return project(base[1], path)
         return ('unknown', 'load base')
 
     def val_local(self, l, point):
@@ -488,6 +494,18 @@ class An:
             base, path = self.place_desc(rv['place'], point)
             if base[0] == 'pointee' and not path:
                 return base[1]          # reborrow of a reference value
+            if (base[0] == 'local' and not path and not rv.get('mut') and k == 'ref'
+                    and self.body.local_ty(base[1]).startswith('&') and base[1] not in self.writer_sites()):
+                # `&r` where r is itself a reference-typed temporary: an immutable cell holding r's value
+                v = self.val_local(base[1], point)
+                if v[0] not in ('phi', 'uninit', 'rec'):
+                    return ('addr', ('cell', v), (), False)
+            if (base[0] == 'local' and not path and not rv.get('mut') and k == 'ref'
+                    and base[1] not in self.writer_sites() and len(self.defs.get(base[1], [])) == 1):
+                # `&[0u8; 32]`-style borrow of a never-written constant temporary
+                v = self.val_local(base[1], point)
+                if v[0] in ('repeat', 'const') or (v[0] == 'agg' and v[1] == 'array'):
+                    return ('addr', ('cell', v), (), False)
             return ('addr', base, path, bool(rv.get('mut')))
         if k == 'cast':
             t = self.val_op(rv['op'], point)
@@ -794,6 +812,13 @@ def strip_sites(t):
     return tuple(strip_sites(x) for x in t)
 
 
+def unref(t):
+    """strip references to immutable cells / promoteds: &&x -> x"""
+    while isinstance(t, tuple) and t and t[0] == 'addr' and t[1][0] in ('cell', 'promoted') and not t[2]:
+        t = t[1][1] if t[1][0] == 'cell' else t[1][2]
+    return t
+
+
 def walk(t):
     """all sub-terms (pre-order)"""
     yield t
@@ -834,6 +859,8 @@ def bytes_of(t):
         return bytes.fromhex(t[2][1])
     if t[0] == 'addr' and t[1][0] == 'promoted' and not t[2]:
         return bytes_of(t[1][2])
+    if t[0] == 'addr' and t[1][0] == 'cell' and not t[2]:
+        return bytes_of(t[1][1])
     if t[0] == 'load' and not t[2]:
         return bytes_of(t[1])
     if t[0] == 'agg' and t[1] == 'array':
@@ -851,6 +878,11 @@ def bytes_of(t):
 
 def pp(t, depth=0):
     """compact human-readable rendering of a term"""
+    from .tyutil import short_ty
+    return short_ty(_pp(t, depth))
+
+
+def _pp(t, depth=0):
     if not isinstance(t, tuple):
         return str(t)
     if not t:
@@ -885,6 +917,8 @@ def pp(t, depth=0):
             bs = '_%d' % b[1]
         elif b[0] == 'pointee':
             bs = '*' + pp(b[1], d)
+        elif b[0] == 'cell':
+            bs = 'cell(%s)' % pp(b[1], d)
         else:
             bs = 'promoted(%s)' % pp(b[2], d)
         return '&%s%s%s' % ('mut ' if t[3] else '', bs, pp_path(t[2], d))
